@@ -128,6 +128,165 @@ func cacheAllSame(xs []string) (string, bool) {
 	return xs[0], true
 }
 
+// cacheCallPos returns the positions of the calls in fn whose function is the selector recv.name
+// (recv == "" matches any receiver expression).
+func cacheCallPos(fn *ast.FuncDecl, recv, name string) []token.Pos {
+	var out []token.Pos
+	ast.Inspect(fn.Body, func(x ast.Node) bool {
+		c, ok := x.(*ast.CallExpr)
+		if !ok {
+			return true
+		}
+		se, ok := c.Fun.(*ast.SelectorExpr)
+		if !ok || se.Sel.Name != name {
+			return true
+		}
+		if recv != "" {
+			if id, ok := se.X.(*ast.Ident); !ok || id.Name != recv {
+				return true
+			}
+		}
+		out = append(out, c.Pos())
+		return true
+	})
+	return out
+}
+
+func cacheIncreasing(ps ...[]token.Pos) bool {
+	last := token.NoPos
+	for _, p := range ps {
+		if len(p) != 1 || p[0] <= last {
+			return false
+		}
+		last = p[0]
+	}
+	return true
+}
+
+// cacheBlocksWith counts the blocks of fn that contain, as direct statements, a call
+// recv.name(arg0) (as an expression statement) followed later in the same block by a return.
+func cacheBlocksWith(fn *ast.FuncDecl, recv, name, arg0 string) int {
+	n := 0
+	ast.Inspect(fn.Body, func(x ast.Node) bool {
+		b, ok := x.(*ast.BlockStmt)
+		if !ok {
+			return true
+		}
+		for i, st := range b.List {
+			es, ok := st.(*ast.ExprStmt)
+			if !ok {
+				continue
+			}
+			c, ok := es.X.(*ast.CallExpr)
+			if !ok {
+				continue
+			}
+			se, ok := c.Fun.(*ast.SelectorExpr)
+			if !ok || se.Sel.Name != name {
+				continue
+			}
+			if id, ok := se.X.(*ast.Ident); !ok || id.Name != recv {
+				continue
+			}
+			if arg0 != "" {
+				if len(c.Args) != 1 {
+					continue
+				}
+				switch a := c.Args[0].(type) {
+				case *ast.BasicLit:
+					if a.Value != arg0 {
+						continue
+					}
+				case *ast.Ident:
+					if a.Name != arg0 {
+						continue
+					}
+				default:
+					continue
+				}
+			}
+			for _, later := range b.List[i+1:] {
+				if _, ok := later.(*ast.ReturnStmt); ok {
+					n++
+					break
+				}
+			}
+		}
+		return true
+	})
+	return n
+}
+
+func cacheEmitBool(g *gen, name, comment string, v bool) {
+	fmt.Fprintf(&g.buf, "(* %s *)\nDefinition %s : bool := %v.\n\n", comment, name, v)
+}
+
+func cacheShape(g *gen) {
+	const dir = "cache"
+	if fn := g.funcDecl(dir, "Cache.put"); fn != nil {
+		ok := cacheIncreasing(cacheCallPos(fn, "file", "Seek"), cacheCallPos(fn, "io", "Copy"),
+			cacheCallPos(fn, "c", "copyFile"), cacheCallPos(fn, "c", "putIndexEntry"))
+		cacheEmitBool(g, "put_order_ok", "cache.put: Seek, io.Copy (hash pass), copyFile, putIndexEntry, once each and in this order", ok)
+	}
+	if fn := g.funcDecl(dir, "Cache.copyFile"); fn != nil {
+		// the last-byte commit: CopyN(w, file, size-1); file.Read(buf); bytes.Equal(sum, out); f.Write(buf); f.Close()
+		copyN := cacheCallPos(fn, "io", "CopyN")
+		sizeMinus1 := false
+		ast.Inspect(fn.Body, func(x ast.Node) bool {
+			c, ok := x.(*ast.CallExpr)
+			if !ok || len(c.Args) != 3 {
+				return true
+			}
+			if se, ok := c.Fun.(*ast.SelectorExpr); ok && se.Sel.Name == "CopyN" {
+				if be, ok := c.Args[2].(*ast.BinaryExpr); ok && be.Op == token.SUB {
+					if a, ok := be.X.(*ast.Ident); ok && a.Name == "size" {
+						if b, ok := be.Y.(*ast.BasicLit); ok && b.Value == "1" {
+							sizeMinus1 = true
+						}
+					}
+				}
+			}
+			return true
+		})
+		closes := cacheCallPos(fn, "f", "Close")
+		var lastClose []token.Pos
+		if len(closes) >= 1 {
+			lastClose = closes[len(closes)-1:]
+		}
+		seeks := cacheCallPos(fn, "file", "Seek")
+		ok := sizeMinus1 && cacheIncreasing(cacheCallPos(fn, "os", "OpenFile"), seeks, copyN, cacheCallPos(fn, "file", "Read"),
+			cacheCallPos(fn, "bytes", "Equal"), cacheCallPos(fn, "f", "Write"), lastClose)
+		cacheEmitBool(g, "copy_commit_ok", "cache.copyFile: OpenFile, Seek, io.CopyN(w, file, size-1), file.Read(buf), bytes.Equal(sum, out), f.Write(buf), f.Close in this order (the last byte commits)", ok)
+		cacheEmitBool(g, "copy_truncates_on_failure", "cache.copyFile: five failure exits, each f.Truncate(0) then return", cacheBlocksWith(fn, "f", "Truncate", "0") == 5)
+		cacheEmitBool(g, "copy_removes_on_close_failure", "cache.copyFile: os.Remove(name) then return when the final Close fails", cacheBlocksWith(fn, "os", "Remove", "name") == 1)
+	}
+	if fn := g.funcDecl(dir, "Cache.putIndexEntry"); fn != nil {
+		trunc := cacheCallPos(fn, "f", "Truncate")
+		ok := cacheIncreasing(cacheCallPos(fn, "os", "OpenFile"), cacheCallPos(fn, "f", "WriteString"), trunc,
+			cacheCallPos(fn, "f", "Close"), cacheCallPos(fn, "os", "Remove"))
+		// the truncation happens only when the write succeeded: it sits in `if err == nil { ... }`
+		inIf := false
+		ast.Inspect(fn.Body, func(x ast.Node) bool {
+			is, ok := x.(*ast.IfStmt)
+			if !ok {
+				return true
+			}
+			be, ok := is.Cond.(*ast.BinaryExpr)
+			if !ok || be.Op != token.EQL {
+				return true
+			}
+			a, ok1 := be.X.(*ast.Ident)
+			b, ok2 := be.Y.(*ast.Ident)
+			if ok1 && ok2 && a.Name == "err" && b.Name == "nil" && len(trunc) == 1 && is.Body.Pos() < trunc[0] && trunc[0] < is.Body.End() {
+				inIf = true
+			}
+			return true
+		})
+		cacheEmitBool(g, "index_write_then_truncate", "cache.putIndexEntry: OpenFile, f.WriteString(entry), then (if the write succeeded) f.Truncate, f.Close, os.Remove on failure, in this order", ok && inIf)
+		cacheEmitBool(g, "index_removes_on_failure", "cache.putIndexEntry: os.Remove(file) then return when anything failed", cacheBlocksWith(fn, "os", "Remove", "file") == 1)
+	}
+}
+
 func init() {
 	groups["Cache"] = func(g *gen) {
 		const dir = "cache"
@@ -284,6 +443,7 @@ func init() {
 				g.fail("cache.OutputFile: c.fileName(out, <one literal key>) not found")
 			}
 		}
+		cacheShape(g)
 		// fileName: ... fmt.Sprintf("%x", id)+"-"+key
 		if fn := g.funcDecl(dir, "Cache.fileName"); fn != nil {
 			sep, n := "", 0
